@@ -436,14 +436,69 @@ unsafe fn host_path_policy(path: *const libc::c_char) -> Option<bool> {
         return None;
     }
     let flipped = policy.iter().any(|f| *f == name);
+    let altered = policy.iter().any(|f| f.strip_prefix("filenum:").map(|p| name.strip_prefix("file:") == Some(p)).unwrap_or(false));
     if let Ok(mut q) = ENV_QUERIED.lock() {
         q.insert(name);
+    }
+    if altered {
+        ALTER_NEXT_HOST_OPEN.with(|c| c.set(true));
+        return None;
     }
     if !flipped {
         return None;
     }
     let exists = libc::syscall(libc::SYS_faccessat, libc::AT_FDCWD, path, libc::F_OK) == 0;
     Some(exists)
+}
+
+thread_local! {
+    static ALTER_NEXT_HOST_OPEN: std::cell::Cell<bool> = const { std::cell::Cell::new(false) };
+}
+
+/// The host file as another machine would show it: same text, every number replaced by 1
+/// (served from an anonymous memory file).
+unsafe fn host_open_altered(path: *const libc::c_char) -> i32 {
+    let fd = libc::syscall(libc::SYS_openat, libc::AT_FDCWD, path, libc::O_RDONLY, 0) as i32;
+    if fd < 0 {
+        return fd;
+    }
+    let mut content = vec![];
+    let mut buf = [0u8; 4096];
+    loop {
+        let n = libc::syscall(libc::SYS_read, fd, buf.as_mut_ptr(), buf.len()) as isize;
+        if n <= 0 || content.len() > (1 << 20) {
+            break;
+        }
+        content.extend_from_slice(&buf[..n as usize]);
+    }
+    libc::syscall(libc::SYS_close, fd);
+    let mut out = Vec::with_capacity(content.len());
+    let mut i = 0;
+    while i < content.len() {
+        if content[i].is_ascii_digit() {
+            out.push(b'1');
+            while i < content.len() && content[i].is_ascii_digit() {
+                i += 1;
+            }
+        } else {
+            out.push(content[i]);
+            i += 1;
+        }
+    }
+    let m = libc::syscall(libc::SYS_memfd_create, b"altered\0".as_ptr(), 0) as i32;
+    if m < 0 {
+        return m;
+    }
+    let mut off = 0;
+    while off < out.len() {
+        let n = libc::syscall(libc::SYS_write, m, out[off..].as_ptr(), out.len() - off) as isize;
+        if n <= 0 {
+            break;
+        }
+        off += n as usize;
+    }
+    libc::syscall(libc::SYS_lseek, m, 0, libc::SEEK_SET);
+    m
 }
 
 unsafe fn host_open_flipped(absent: bool) -> i32 {
@@ -464,6 +519,9 @@ pub unsafe extern "C" fn open64(path: *const libc::c_char, flags: i32, mode: lib
     if let Some(absent) = host_path_policy(path) {
         return host_open_flipped(absent);
     }
+    if ALTER_NEXT_HOST_OPEN.with(|c| c.replace(false)) {
+        return host_open_altered(path);
+    }
     libc::syscall(libc::SYS_openat, libc::AT_FDCWD, path, flags | libc::O_LARGEFILE, mode as libc::c_uint) as i32
 }
 
@@ -475,6 +533,9 @@ pub unsafe extern "C" fn open(path: *const libc::c_char, flags: i32, mode: libc:
     }
     if let Some(absent) = host_path_policy(path) {
         return host_open_flipped(absent);
+    }
+    if ALTER_NEXT_HOST_OPEN.with(|c| c.replace(false)) {
+        return host_open_altered(path);
     }
     libc::syscall(libc::SYS_openat, libc::AT_FDCWD, path, flags, mode as libc::c_uint) as i32
 }
@@ -1216,8 +1277,23 @@ pub fn leave_party_clock() {
     let _ = PARTY_CLOCK.try_with(|c| c.set(None));
 }
 
+thread_local! {
+    /// the harness's own timing on a party thread (the scheduler's deadlock detector) reads the real clock
+    static REAL_CLOCK: std::cell::Cell<bool> = const { std::cell::Cell::new(false) };
+}
+
+pub fn with_real_clock<R>(f: impl FnOnce() -> R) -> R {
+    let _ = REAL_CLOCK.try_with(|c| c.set(true));
+    let r = f();
+    let _ = REAL_CLOCK.try_with(|c| c.set(false));
+    r
+}
+
 #[no_mangle]
 pub unsafe extern "C" fn clock_gettime(clk: libc::clockid_t, ts: *mut libc::timespec) -> i32 {
+    if REAL_CLOCK.try_with(|c| c.get()).unwrap_or(false) {
+        return libc::syscall(libc::SYS_clock_gettime, clk, ts) as i32;
+    }
     if let Ok(Some((now, step))) = PARTY_CLOCK.try_with(|c| c.get()) {
         let _ = PARTY_CLOCK.try_with(|c| c.set(Some((now.saturating_add(step), step))));
         CLOCK_READS_IN_PARTIES.fetch_add(1, Ordering::Relaxed);
